@@ -459,7 +459,7 @@ Proof.
   apply bytes_ok_4 in B. destruct B as (Hl2 & Hl1 & Hl0 & Hty & B).
   apply bytes_ok_1 in B. destruct B as (Hfl & B).
   apply bytes_ok_4 in B. destruct B as (Hs3 & Hs2 & Hs1 & Hs0 & B).
-  unfold spec_read, parse_header, read_frame_with_size, read_from.
+  unfold spec_read, parse_header, read_frame_with_size, finish_read, read_from, read_from_gen.
   rewrite (len_lt_false (l2 :: l1 :: l0 :: ty :: fl :: s3 :: s2 :: s1 :: s0 :: rest) c_DefaultFrameSize)
     by (cbn [length]; change (N.to_nat c_DefaultFrameSize) with 9%nat; lia).
   change (takeN c_DefaultFrameSize (l2 :: l1 :: l0 :: ty :: fl :: s3 :: s2 :: s1 :: s0 :: rest)) with [l2; l1; l0; ty; fl; s3; s2; s1; s0].
